@@ -520,6 +520,10 @@ class CloudWorld(World):
                 for t in ph['tweaks']:
                     if t[0] == 'put':
                         tw.append({'put': {'name': name_scn(t[1]), 'value': blist(t[2]), 'creation': val(t[3])}})
+                    elif t[0] == 'copy':
+                        tw.append({'copy': {'from': name_scn(t[1]), 'to': name_scn(t[2])}})
+                    elif t[0] == 'put_latest':
+                        tw.append({'put_latest': lab(t[1])})
                     else:
                         tw.append({'creation': {'name': name_scn(t[1]), 't': val(t[2])}})
                 scn_ph.append({'tweak': tw})
